@@ -22,11 +22,20 @@ pub fn wval(code: u8) -> Option<f64> {
         W0 => Some(0.0),
         WM => None,
         WN => Some(-1.0),
+        c if c >= WNUM => Some((c - WNUM + 1) as f64),
         _ => unreachable!(),
     }
 }
-pub fn wname(code: u8) -> &'static str {
-    ["1", "2", "0", "missing", "-1"][code as usize]
+/// codes >= WNUM carry the plain integer weight (code - WNUM + 1), used by the large-graph family
+pub const WNUM: u8 = 16;
+pub fn wcode_num(w: usize) -> u8 {
+    WNUM + (w as u8) - 1
+}
+pub fn wname(code: u8) -> String {
+    if code >= WNUM {
+        return format!("{}", code - WNUM + 1);
+    }
+    ["1", "2", "0", "missing", "-1"][code as usize].to_string()
 }
 pub fn wcode(name: &str) -> u8 {
     match name {
@@ -35,7 +44,10 @@ pub fn wcode(name: &str) -> u8 {
         "0" => W0,
         "missing" => WM,
         "-1" => WN,
-        o => vcore::machinery_failure(&format!("bad weight name {o}")),
+        o => match o.parse::<usize>() {
+            Ok(w) if (3..=200).contains(&w) => wcode_num(w),
+            _ => vcore::machinery_failure(&format!("bad weight name {o}")),
+        },
     }
 }
 
@@ -371,7 +383,8 @@ pub const F_COMM: u8 = 7;
 pub const F_STRUCT: u8 = 8;
 pub const F_OP: u8 = 9;
 pub const F_MINCOST: u8 = 10;
-pub const FAM_NAMES: [&str; 11] = ["shortest_path", "traversal", "components", "mst", "flow", "centrality", "clustering", "community", "structure", "operator_shortest_path", "min_cost_flow"];
+pub const F_BIG: u8 = 11;
+pub const FAM_NAMES: [&str; 12] = ["shortest_path", "traversal", "components", "mst", "flow", "centrality", "clustering", "community", "structure", "operator_shortest_path", "min_cost_flow", "union_find_large"];
 
 pub struct Raw {
     pub fam: u8,
